@@ -394,6 +394,8 @@ func (r *run) step(op map[string]any, ln *Line) {
 		}
 	case "RotateWait":
 		r.rotateWait(ln)
+	case "ExpireWait":
+		r.expireWait(ln)
 	case "ConnectFlip":
 		r.connectFlip(op, ln)
 	case "Connect":
@@ -724,6 +726,32 @@ func (r *run) rotateWait(ln *Line) {
 	if err != nil || before == nil || !bytes.Equal(after.Current.PublicKeyPkix, before.Next.PublicKeyPkix) {
 		ln.Res = "harness-error"
 		ln.Err = fmt.Sprint("rotation did not promote: ", err)
+		return
+	}
+	ln.Res = "ok"
+}
+
+// expireWait waits (real time) until the server's CURRENT root has expired while its next root is valid, and
+// does not rotate: the operator is late.  The server serves from the next root in that period.
+func (r *run) expireWait(ln *Line) {
+	srv := r.srv
+	if r.cfg.LifeSec <= 0 {
+		ln.Res = "skip"
+		return
+	}
+	roots, err := types.LoadRootCertificates(srv.W.Ctx, srv.W.Inner, srv.W.StorageOpts()...)
+	if err != nil {
+		ln.Res = "harness-error"
+		ln.Err = err.Error()
+		return
+	}
+	if d := time.Until(roots.Current.NotAfter.AsTime().Add(1200 * time.Millisecond)); d > 0 {
+		time.Sleep(d)
+	}
+	now := time.Now()
+	if !roots.Next.NotBefore.AsTime().Before(now) || roots.Next.NotAfter.AsTime().Sub(now) < 1500*time.Millisecond {
+		ln.Res = "harness-error"
+		ln.Err = "no period in which only the next root is valid"
 		return
 	}
 	ln.Res = "ok"
